@@ -14,7 +14,7 @@ RULE = ("every (sequences, custom distance, max_edits, max_custom_distance, engi
         "naively; both CSV tables are checked entry by entry; non-trivial = expected set non-empty")
 ASSUMPTIONS = ["pwseqdist is absent: /verif/standins/pwseqdist supplies apply_pairwise_sparse + nb_vector_tcrdist (own implementation); what is decided is pyrepseq's composition (candidate search, positional lookup, V table, chain sum, radius), not pwseqdist",
                "custom distances are symmetric with d(x,x)=0 as the property requires"]
-REQUIRED_CLASSES = {"all": ["lev-ok-custom-too-far", "custom-ok-lev-too-far", "real-valued-distance", "infinite-max_custom_distance", "tcrdist-empty-result", "tcrdist-chain-both", "vtable-entry"]}
+REQUIRED_CLASSES = {"all": ["lev-ok-custom-too-far", "custom-ok-lev-too-far", "real-valued-distance", "infinite-max_custom_distance", "tcrdist-empty-result", "tcrdist-chain-both", "vtable-entry", "history-changes-distance-function"]}
 MIN_OUTCOMES = 10
 
 INF = float("inf")
@@ -115,6 +115,16 @@ def spaces(tier):
                     continue   # thinning of the larger tables by a fixed residue class (stated in bounds)
                 yield ("tcr", tuple(R[r] for r in rows))
 
+    def gen_hist():
+        depth = 2 if q else 3
+        for kind in ("SymdelDB", "LookupDB"):
+            for ri in range(len(HIST_REFS)):
+                for qi in range(len(HIST_QUERIES)):
+                    for k in (1, 2) if kind == "SymdelDB" else (1,):
+                        for d in range(1, depth + 1):
+                            for h in itertools.product(HIST_OPS, repeat=d):
+                                yield ("hist", kind, ri, qi, k, h)
+
     def gen_vt():
         yield ("vtable", "vdists_alpha.csv")
         yield ("vtable", "vdists_beta.csv")
@@ -123,6 +133,7 @@ def spaces(tier):
         Space("custom-distance-universes", gen_uni, "U(AC,5|7), U(ACD,4|5) as one list x 7 custom distances x max_edits in 1..2 x 8 max_custom_distance values x engines (hash_based/LookupDB k=1 on smaller universes)", per_case=True),
         Space("custom-distance-all-lists", gen_lists, "Lists(U(AC,2),3) x 7 custom distances x max_edits in 1..2 x 8 max_custom_distance x 4 self engines + 3 two-collection engines (query = reversed list)"),
         Space("tcrdist-tables", gen_tcr, "all multisets of 2 rows (and a fixed residue class of the 3[,4]-row multisets) over a row alphabet of beta/alpha V alleles x CDR3s; chain x edit_on_trimmed x max_edits in 1..2 x max_tcrdist in {0,12,24,1000}; shifted index", shards=64),
+        Space("index-object-histories", gen_hist, "every sequence of 1..2 (quick) / 1..3 (thorough) look-ups with distance in {default, hamming, 4 callables} x max_custom_distance in {inf, 1} on one live SymdelDB / LookupDB (2 references x 2 query lists), each answer compared with the reference", shards=32),
         Space("bundled-v-tables", gen_vt, "every entry of vdists_alpha.csv and vdists_beta.csv", per_case=True),
     ]
 
@@ -200,6 +211,8 @@ def check_case(case, acc):
     elif kind == "one":
         _, eng, seqs, k, cname, maxcd, queries = case
         _cmp(acc, case, eng, list(seqs), k, cname, maxcd, None if queries is None else list(queries), True)
+    elif kind == "hist":
+        _check_history(acc, case)
     elif kind == "vtable":
         _check_vtable(acc, case)
     elif kind == "tcr":
@@ -339,3 +352,44 @@ def neighbors_any(rows, chain, trimmed, k):
     if trimmed:
         seqs = [s[3:-2] for s in seqs]
     return bool(neighbors_within(seqs, k))
+
+
+# ------------------------------------------------------------------ histories on live index objects with changing distance functions
+HIST_REFS = (("AC", "CA", "A", "AC", "ACC"), ("", "A", "CC", "CA"))
+HIST_QUERIES = (("CA", "A", "AC"), ("C", "", "ACC"))
+HIST_OPS = [(cn, mc) for cn in (None, "hamming", "lev", "2lev", "halflev", "lendiff") for mc in (INF, 1)]
+
+
+def _hist_expected(ref, query, k, cname, maxcd):
+    if cname is None:
+        return neighbors_within(list(ref), k, queries=list(query))
+    if cname == "hamming":
+        return neighbors_within(list(ref), k, queries=list(query), dist="hamming")
+    return expected_custom(list(ref), k, cname, maxcd, list(query))
+
+
+def _hist_lookup(acc, kind, db, query, k, cname, maxcd):
+    cd = cname if cname in (None, "hamming") else CUSTOM[cname]
+    kw = dict(custom_distance=cd, max_custom_distance=maxcd)
+    if kind == "LookupDB":
+        kw["max_edits"] = k
+    return acc.call(db.lookup, list(query), **kw)
+
+
+def _check_history(acc, case):
+    from pyrepseq.nn import SymdelDB, LookupDB
+    _, kind, ri, qi, k, h = case
+    ref, query = HIST_REFS[ri], HIST_QUERIES[qi]
+    db = SymdelDB(list(ref), k) if kind == "SymdelDB" else LookupDB(list(ref))
+    acc.transitions += 1
+    for step, (cname, maxcd) in enumerate(h):
+        acc.cls("history-step")
+        if step and h[step - 1][0] != cname:
+            acc.cls("history-changes-distance-function")
+        res = _hist_lookup(acc, kind, db, query, k, cname, maxcd)
+        exp = _hist_expected(ref, query, k, cname, maxcd)
+        bad = diagnose(res, exp, self_mode=False)
+        if bad is not None:
+            acc.fail("%s/history/%s/%s" % (kind, "custom-callable" if cname not in (None, "hamming") else str(cname), bad[0]), ("hist", kind, ri, qi, k, tuple(h[:step + 1])), sorted(exp)[:20], digest(res), note="after %r" % (h[:step],))
+            return
+        acc.ok((kind, cname, maxcd, digest(res)), nontrivial=bool(exp))
